@@ -110,10 +110,40 @@ impl RuledefMap
 
         let mut walker_index = 0;
 
+        let is_word = |kind: syntax::TokenKind|
+            kind == syntax::TokenKind::Identifier ||
+            kind == syntax::TokenKind::Number ||
+            kind == syntax::TokenKind::KeywordAsm ||
+            kind == syntax::TokenKind::KeywordTrue ||
+            kind == syntax::TokenKind::KeywordFalse;
+
+        let mut prev_was_word = false;
+        let mut seen_gap = false;
+
         while prefix_index < MAX_PREFIX_SIZE
         {
             let token = walker.next_nth_token(walker_index);
             walker_index += 1;
+
+            // Blanks and comments may separate a word from
+            // punctuation (`ld (x)` for a rule `ld(x)`), but
+            // two words remain two words
+            if token.kind == syntax::TokenKind::Whitespace ||
+                token.kind == syntax::TokenKind::Comment
+            {
+                seen_gap = true;
+                continue;
+            }
+
+            if seen_gap &&
+                prev_was_word &&
+                is_word(token.kind)
+            {
+                break;
+            }
+
+            seen_gap = false;
+            prev_was_word = is_word(token.kind);
 
             if token.kind.is_allowed_pattern_token()
             {
